@@ -79,9 +79,14 @@ Definition split (cfg : econfig) (sel : list F.flow) : selection :=
   {| s_start := group cfg 1 sel; s_user := group cfg 0 sel; s_end := group cfg 2 sel |}.
 
 (* the same transaction with the stream typed as a response (apiStream.SetType
-   after a hand-over): URL, method, headers, query untouched *)
+   after a hand-over): URL, method, headers, query untouched.  A request has no
+   response object, and typing its stream as a response does not create one:
+   C03's encoding of "no response object" ([F.no_response], a negative status)
+   - a status requirement is then never met (repo fix 22527f1; before it the
+   second GetFlow dereferenced the missing response).  A response stays as it is. *)
 Definition as_response (x : F.txn) : F.txn :=
-  F.mkTxn true (F.t_url x) (F.t_method x) (F.t_headers x) (F.t_query x) (F.t_status x).
+  F.mkTxn true (F.t_url x) (F.t_method x) (F.t_headers x) (F.t_query x)
+          (if F.t_resp x then F.t_status x else F.no_response).
 
 (* executeReq after a hand-over: second GetFlow; nothing found => return *)
 Definition reselect (cfg : econfig) (x : F.txn) : option selection :=
@@ -287,6 +292,29 @@ Definition dec_ao (rows : list arow) : aoracle :=
 Definition dec_po (rows : list arow) : poracle :=
   fun fl k => act_resp (find_arow rows fl k false).
 
+(* the hypotheses of E2E_early_response in finite form, over the rows of a case:
+   [coherent] (a processor answers the request exactly when the request action
+   predicted for it is an early response) at every row of the two oracles, and
+   [sys_quiet] (no row of a system flow answers a request).  Sound for the
+   decoded oracles (EndToEndProofs.coherentb_sound / sys_quietb_sound); checked
+   by [run_txn] for the PREDICTED action oracle on every request. *)
+Definition coherent_at (beh : oracles) (ao : aoracle) (fl k : Z) (d : dir) : bool :=
+  eqb (answers (beh fl) d k)
+      (match ao fl k d with Some a => A.is_early a | None => false end).
+
+Definition coherentb (orc : list orow) (areal : list arow) : bool :=
+  let beh := dec_orc orc in
+  let ao := dec_ao areal in
+  forallb (fun r => let '(OR f k q _ _) := r in coherent_at beh ao f k (dir_of q)) orc
+  && forallb (fun r => let '(AR f k q _) := r in coherent_at beh ao f k (dir_of q)) areal.
+
+Definition sys_quietb (cfg : econfig) (orc : list orow) : bool :=
+  let beh := dec_orc orc in
+  forallb (fun e =>
+    (F.f_kind (ef_filter e) =? 0)
+    || forallb (fun r => let '(OR f k _ _ _) := r in
+                         negb (f =? eid e) || negb (answers (beh f) Req k)) orc) cfg.
+
 Definition ev_eqb (e : event) (o : eev) : bool :=
   let '(EV f k q c) := o in
   (e_flow e =? f) && (e_key e =? k) && eqb (is_req (e_dir e)) q && (e_cond e =? c).
@@ -354,6 +382,7 @@ Definition run_txn (cfg : econfig) (fuel : nat) (t : tcase) : option model_out :
        && (is_error r || list_eqb (fun m o => opt_eqb A.req_eqb (Some m) (act_req o)) l alist)
        && opt_eqb A.req_eqb (Some a1) (act_req fr)
        && opt_eqb A.req_eqb (Some a2) (act_req fs)
+       && coherentb orc areal && sys_quietb cfg orc
     then None else out (Some (l, a1, a2)) None.
 
 Fixpoint run_txns (cfg : econfig) (fuel : nat) (i : Z) (ts : list tcase) : list (Z * model_out) :=
